@@ -436,8 +436,16 @@ def m_call_once(e,run,a,f):
 
 # ----------------------------------------------------------------------------- clone / eq / cmp / default
 def m_clone(e,run,a,f): return e.clone(run,a[0])
-def m_eq(e,run,a,f): return val_eq(a[0],a[1])
-def m_ne(e,run,a,f): return b_not(val_eq(a[0],a[1]))
+def m_eq(e,run,a,f):
+    # containers of in-crate element types compare their elements with the in-crate PartialEq
+    x=deref(a[0]); y=deref(a[1])
+    if isinstance(x,VecO) and isinstance(y,VecO) and x.items and isinstance(deref(x.items[0]),Agg):
+        if len(x.items)!=len(y.items): return Bool(False)
+        return b_and(*[e.eq(run,p,q) for p,q in zip(x.items,y.items)])
+    if isinstance(x,Agg) and x.ty=='Option' and isinstance(y,Agg) and x.vname=='Some' and y.vname=='Some':
+        return e.eq(run,x.f[0],y.f[0])
+    return val_eq(a[0],a[1])
+def m_ne(e,run,a,f): return b_not(m_eq(e,run,a,f))
 def m_cmp(e,run,a,f): return ordering(val_cmp(run,a[0],a[1]))
 def m_partial_cmp(e,run,a,f): return some(ordering(val_cmp(run,a[0],a[1])))
 def m_lt(op):
@@ -1073,7 +1081,7 @@ def register_all(E):
     M(r'<impl \[.*\]>::iter_mut$',m_iter_mut)
     M(r'<impl \[.*\]>::len$',m_len)
     M(r'<impl \[.*\]>::is_empty$',m_is_empty)
-    M(r'<impl \[.*\]>::contains$',m_vec_contains)
+    M(r'<impl \[.*\]>::contains$',m_contains_generic)
     M(r'<impl \[.*\]>::first$',m_vec_first)
     M(r'<impl \[.*\]>::last$',m_vec_last)
     M(r'<impl \[.*\]>::get$',m_vec_get)
@@ -1251,3 +1259,364 @@ def register_default(E): E.model(r' as Default>::default$',m_default)
 _old_register_all3=register_all
 def register_all(E):
     _old_register_all3(E); register_default(E)
+
+# ----------------------------------------------------------------------------- more Vec / slice / iterator / Option methods
+def _cmp_from_ordering(o):
+    o=deref(o); return {'Less':-1,'Equal':0,'Greater':1}[o.vname]
+def m_sort_by(e,run,a,f):
+    import functools
+    d=deref(a[0])
+    d.items.sort(key=functools.cmp_to_key(lambda x,y: _cmp_from_ordering(e.call_value(run,a[1],[Ref(Cell(x)),Ref(Cell(y))]))))
+    return UNIT
+def m_sort_by_key(e,run,a,f):
+    import functools
+    d=deref(a[0])
+    keyed=[(e.call_value(run,a[1],[Ref(Cell(x))]),x) for x in d.items]
+    keyed.sort(key=functools.cmp_to_key(lambda p,q: val_cmp(run,p[0],q[0])))
+    d.items=[x for _,x in keyed]; return UNIT
+def m_dedup(e,run,a,f):
+    d=deref(a[0]); out=[]
+    for x in d.items:
+        if out and run.branch_bool(e.eq(run,out[-1],x),'dedup'): continue
+        out.append(x)
+    d.items=out; return UNIT
+def m_dedup_by_key(e,run,a,f):
+    d=deref(a[0]); out=[]; lastk=None
+    for x in d.items:
+        k=e.call_value(run,a[1],[Ref(Cell(x))])
+        if out and run.branch_bool(val_eq(lastk,k),'dedup'): continue
+        out.append(x); lastk=k
+    d.items=out; return UNIT
+def m_dedup_by(e,run,a,f):
+    d=deref(a[0]); out=[]
+    for x in d.items:
+        if out and run.branch_bool(e.call_value(run,a[1],[Ref(Cell(x)),Ref(Cell(out[-1]))]),'dedup'): continue
+        out.append(x)
+    d.items=out; return UNIT
+def m_retain(e,run,a,f):
+    d=deref(a[0])
+    if isinstance(d,VecO):
+        d.items=[x for x in d.items if run.branch_bool(e.call_value(run,a[1],[Ref(Cell(x))]),'retain')]
+    else:
+        d.e=[ent for ent in d.e if run.branch_bool(e.call_value(run,a[1],[Ref(ent,0)] if d.is_set else [Ref(ent,0),Ref(ent,1)]),'retain')]
+    return UNIT
+def m_contains_generic(e,run,a,f):
+    d=deref(a[0])
+    for x in d.items:
+        if run.branch_bool(e.eq(run,x,a[1]),'contains'): return Bool(True)
+    return Bool(False)
+def m_vec_insert(e,run,a,f):
+    d=deref(a[0]); i=deref(a[1])
+    if not i.conc(): raise Unsupported('insert symbolic index')
+    if i.v>len(d.items): raise Panic('insertion index out of bounds','index')
+    d.items.insert(i.v,a[2]); return UNIT
+def m_vec_remove(e,run,a,f):
+    d=deref(a[0]); i=deref(a[1])
+    if not i.conc(): raise Unsupported('remove symbolic index')
+    if i.v>=len(d.items): raise Panic('removal index out of bounds','index')
+    return d.items.pop(i.v)
+def m_vec_truncate(e,run,a,f):
+    d=deref(a[0]); n=deref(a[1])
+    if not n.conc(): raise Unsupported('truncate symbolic')
+    if isinstance(d,VecO): d.items=d.items[:n.v]
+    else: d.b=d.b[:n.v]
+    return UNIT
+def m_vec_reverse(e,run,a,f): deref(a[0]).items.reverse(); return UNIT
+def m_vec_swap_remove(e,run,a,f):
+    d=deref(a[0]); i=deref(a[1])
+    if i.v>=len(d.items): raise Panic('swap_remove index out of bounds','index')
+    x=d.items[i.v]; d.items[i.v]=d.items[-1]; d.items.pop(); return x
+def m_vec_drain_all(e,run,a,f):
+    d=deref(a[0]); xs=list(d.items); d.items=[]; return Iter(xs)
+def m_split_at(e,run,a,f):
+    d=deref(a[0]); i=deref(a[1])
+    if not i.conc(): raise Unsupported('split_at symbolic')
+    n=e.len_of(d)
+    if i.v>n: raise Panic('split_at mid > len','slice')
+    if isinstance(d,VecO): return Agg('()',[Ref(Cell(VecO(d.items[:i.v]))),Ref(Cell(VecO(d.items[i.v:])))])
+    return Agg('()',[Ref(Cell(Str(d.b[:i.v],d.is_str if isinstance(d,Str) else True))),Ref(Cell(Str(d.b[i.v:],d.is_str if isinstance(d,Str) else True)))])
+def m_iter_rev(e,run,a,f):
+    it=to_iter(e,run,a[0]); xs=drain(e,run,it); xs.reverse(); return Iter(xs)
+def m_iter_take(e,run,a,f):
+    it=to_iter(e,run,a[0]); n=deref(a[1])
+    if not n.conc(): raise Unsupported('take symbolic')
+    xs=[]
+    for _ in range(n.v):
+        x=iter_next(e,run,it)
+        if x is None: break
+        xs.append(x)
+    return Iter(xs)
+def m_iter_skip(e,run,a,f):
+    it=to_iter(e,run,a[0]); n=deref(a[1])
+    if not n.conc(): raise Unsupported('skip symbolic')
+    for _ in range(n.v):
+        if iter_next(e,run,it) is None: break
+    return it
+def m_iter_take_while(e,run,a,f):
+    it=to_iter(e,run,a[0]); xs=[]
+    while True:
+        x=iter_next(e,run,it)
+        if x is None or not run.branch_bool(e.call_value(run,a[1],[Ref(Cell(x))]),'take_while'): break
+        xs.append(x)
+    return Iter(xs)
+def m_iter_skip_while(e,run,a,f):
+    it=to_iter(e,run,a[0]); xs=[]; skipping=True
+    while True:
+        x=iter_next(e,run,it)
+        if x is None: break
+        if skipping and run.branch_bool(e.call_value(run,a[1],[Ref(Cell(x))]),'skip_while'): continue
+        skipping=False; xs.append(x)
+    return Iter(xs)
+def m_iter_chain(e,run,a,f):
+    xs=drain(e,run,to_iter(e,run,a[0]))+drain(e,run,to_iter(e,run,a[1])); return Iter(xs)
+def m_iter_zip(e,run,a,f):
+    x=drain(e,run,to_iter(e,run,a[0])); y=drain(e,run,to_iter(e,run,a[1]))
+    return Iter([tuple2(p,q) for p,q in zip(x,y)])
+def m_iter_nth(e,run,a,f):
+    it=to_iter(e,run,a[0]); n=deref(a[1])
+    if not n.conc(): raise Unsupported('nth symbolic')
+    x=None
+    for _ in range(n.v+1):
+        x=iter_next(e,run,it)
+        if x is None: return none()
+    return some(x)
+def m_iter_fold(e,run,a,f):
+    it=to_iter(e,run,a[0]); acc=a[1]
+    while True:
+        x=iter_next(e,run,it)
+        if x is None: return acc
+        acc=e.call_value(run,a[2],[acc,x])
+def m_iter_min_max(which):
+    def m(e,run,a,f):
+        xs=drain(e,run,to_iter(e,run,a[0]))
+        if not xs: return none()
+        best=xs[0]
+        for x in xs[1:]:
+            c=val_cmp(run,x,best)
+            if (which=='min' and c<0) or (which=='max' and c>=0): best=x
+        return some(best)
+    return m
+def m_iter_min_max_by_key(which):
+    def m(e,run,a,f):
+        xs=drain(e,run,to_iter(e,run,a[0]))
+        if not xs: return none()
+        best=xs[0]; bk=e.call_value(run,a[1],[Ref(Cell(best))])
+        for x in xs[1:]:
+            k=e.call_value(run,a[1],[Ref(Cell(x))]); c=val_cmp(run,k,bk)
+            if (which=='min' and c<0) or (which=='max' and c>=0): best=x; bk=k
+        return some(best)
+    return m
+def m_iter_find_map(e,run,a,f):
+    it=to_iter(e,run,a[0])
+    while True:
+        x=iter_next(e,run,it)
+        if x is None: return none()
+        r=e.call_value(run,a[1],[x])
+        if r.vname=='Some': return r
+def m_iter_sum(e,run,a,f):
+    xs=drain(e,run,to_iter(e,run,a[0]))
+    if not xs: return Int(64,False,0)
+    acc=deref(xs[0])
+    for x in xs[1:]: acc=e.binop('Add',acc,deref(x))
+    return acc
+def m_iter_peekable(e,run,a,f):
+    xs=drain(e,run,to_iter(e,run,a[0])); return Iter(xs)
+def m_iter_peek(e,run,a,f):
+    it=deref(a[0])
+    if it.adapt or it.inner is not None: raise Unsupported('peek on adapted iterator')
+    if it.pos>=it.back: return none()
+    return some(Ref(it.items,it.pos))
+def m_iter_next_back(e,run,a,f):
+    it=deref(a[0])
+    if it.adapt or it.inner is not None:
+        xs=drain(e,run,it); it.items=xs; it.pos=0; it.back=len(xs); it.adapt=[]
+    if it.pos>=it.back: return none()
+    it.back-=1; return some(it.items[it.back])
+def m_iter_by_ref(e,run,a,f): return a[0]
+def m_opt_filter(e,run,a,f):
+    r=a[0]
+    if r.vname=='None': return r
+    return r if run.branch_bool(e.call_value(run,a[1],[Ref(r,0)]),'optfilter') else none()
+def m_opt_is_some_and(e,run,a,f):
+    r=a[0]
+    if r.vname in('None','Err'): return Bool(False)
+    return e.call_value(run,a[1],[r.f[0]])
+def m_opt_map_or(e,run,a,f):
+    r=a[0]
+    if r.vname in('None','Err'): return a[1]
+    return e.call_value(run,a[2],[r.f[0]])
+def m_opt_map_or_else(e,run,a,f):
+    r=a[0]
+    if r.vname=='None': return e.call_value(run,a[1],[])
+    if r.vname=='Err': return e.call_value(run,a[1],[r.f[0]])
+    return e.call_value(run,a[2],[r.f[0]])
+def m_opt_or(e,run,a,f): return a[0] if a[0].vname in('Some','Ok') else a[1]
+def m_opt_and(e,run,a,f): return a[1] if a[0].vname in('Some','Ok') else a[0]
+def m_opt_xor(e,run,a,f):
+    x,y=a[0],a[1]
+    if x.vname=='Some' and y.vname=='None': return x
+    if y.vname=='Some' and x.vname=='None': return y
+    return none()
+def m_opt_zip(e,run,a,f):
+    if a[0].vname=='Some' and a[1].vname=='Some': return some(tuple2(a[0].f[0],a[1].f[0]))
+    return none()
+def m_opt_get_or_insert_with(e,run,a,f):
+    r=a[0]; v=r.get()
+    if v.vname=='None':
+        v=some(e.call_value(run,a[1],[])); r.set(v)
+    return Ref(v,0)
+def m_opt_replace(e,run,a,f):
+    r=a[0]; old=r.get(); r.set(some(a[1])); return old
+def m_res_err(e,run,a,f):
+    r=a[0]; return some(r.f[0]) if r.vname=='Err' else none()
+def m_res_unwrap_err(e,run,a,f):
+    r=a[0]
+    if r.vname=='Err': return r.f[0]
+    raise Panic('unwrap_err on Ok','unwrap')
+def m_opt_ok_or_transpose(e,run,a,f):
+    r=a[0]
+    if r.vname=='None': return ok(none())
+    inner=r.f[0]
+    if inner.vname=='Ok': return ok(some(inner.f[0]))
+    return inner
+def m_mem_replace(e,run,a,f):
+    r=a[0]; old=r.get(); r.set(a[1]); return old
+def m_mem_swap(e,run,a,f):
+    x=a[0].get(); a[0].set(a[1].get()); a[1].set(x); return UNIT
+def m_mem_take(e,run,a,f):
+    r=a[0]; old=r.get()
+    if isinstance(old,VecO): r.set(VecO([]))
+    elif isinstance(old,StringO): r.set(StringO([]))
+    elif isinstance(old,MapO): r.set(MapO(old.ordered,old.is_set))
+    elif isinstance(old,Agg) and old.ty=='Option': r.set(none())
+    else: raise Unsupported('mem::take of '+repr(old)[:40])
+    return old
+def m_min_max(which):
+    def m(e,run,a,f):
+        c=val_cmp(run,a[0],a[1])
+        if which=='min': return a[0] if c<=0 else a[1]
+        return a[1] if c<=0 else a[0]
+    return m
+def m_str_chars(e,run,a,f):
+    bl=byte_list(a[0]); c=conc_bytes(bl)
+    if c is None: raise Unsupported('chars on symbolic string')
+    return Iter([Char(ord(ch)) for ch in c.decode()])
+def m_str_bytes(e,run,a,f): return Iter([Int(8,False,x) for x in byte_list(a[0])])
+def m_str_trim(kind):
+    def m(e,run,a,f):
+        bl=byte_list(a[0]); c=conc_bytes(bl)
+        if c is None: raise Unsupported('trim on symbolic string')
+        s=c.decode(); s={'trim':s.strip(),'trim_start':s.lstrip(),'trim_end':s.rstrip()}[kind]
+        return Ref(Cell(Str(list(s.encode()))))
+    return m
+def m_str_case(kind):
+    def m(e,run,a,f):
+        c=conc_bytes(byte_list(a[0]))
+        if c is None: raise Unsupported('case conversion on symbolic string')
+        s=c.decode(); s={'lower':s.lower(),'upper':s.upper(),'alower':''.join(ch.lower() if ord(ch)<128 else ch for ch in s),'aupper':''.join(ch.upper() if ord(ch)<128 else ch for ch in s)}[kind]
+        return mk_string(s)
+    return m
+def m_str_find(e,run,a,f):
+    sb=byte_list(a[0]); pb=pat_bytes(a[1])
+    for i in range(0,len(sb)-len(pb)+1):
+        if run.branch_bool(bytes_eq(sb[i:i+len(pb)],pb),'find'): return some(Int(64,False,i))
+    return none()
+def m_str_rfind(e,run,a,f):
+    sb=byte_list(a[0]); pb=pat_bytes(a[1])
+    for i in range(len(sb)-len(pb),-1,-1):
+        if run.branch_bool(bytes_eq(sb[i:i+len(pb)],pb),'rfind'): return some(Int(64,False,i))
+    return none()
+def m_strip_suffix(e,run,a,f):
+    s=deref(a[0]); pb=pat_bytes(a[1]); sb=byte_list(s)
+    if len(pb)<=len(sb) and run.branch_bool(bytes_eq(sb[len(sb)-len(pb):],pb),'strip_suffix'):
+        return some(Ref(Cell(Str(sb[:len(sb)-len(pb)],getattr(s,'is_str',True)))))
+    return none()
+def m_split_once(e,run,a,f):
+    sb=byte_list(a[0]); pb=pat_bytes(a[1])
+    for i in range(0,len(sb)-len(pb)+1):
+        if run.branch_bool(bytes_eq(sb[i:i+len(pb)],pb),'split_once'):
+            return some(tuple2(Ref(Cell(Str(sb[:i]))),Ref(Cell(Str(sb[i+len(pb):])))))
+    return none()
+def m_is_char_boundary(e,run,a,f):
+    i=deref(a[1])
+    if not i.conc(): raise Unsupported('is_char_boundary symbolic')
+    return Bool(is_char_boundary(run,byte_list(a[0]),i.v))
+def m_char_pred(fn):
+    def m(e,run,a,f):
+        c=deref(a[0])
+        if isinstance(c,Char): return Bool(fn(chr(c.v)))
+        if isinstance(c,Int) and c.conc(): return Bool(fn(chr(c.v)))
+        raise Unsupported('char predicate on symbolic')
+    return m
+def m_saturating(op):
+    def m(e,run,a,f):
+        x,y=deref(a[0]),deref(a[1])
+        r=e.binop(op+'WithOverflow',x,y)
+        val,ov=r.f
+        if ov.conc():
+            if not ov.v: return val
+            if op=='Sub' and not x.s: return Int(x.w,x.s,0)
+            if op=='Add' and not x.s: return Int(x.w,x.s,(1<<x.w)-1)
+            raise Unsupported('saturating signed')
+        if x.s: raise Unsupported('saturating signed symbolic')
+        sat=z3.BitVecVal(0 if op=='Sub' else (1<<x.w)-1,x.w)
+        return Int(x.w,x.s,z3.If(ov.v,sat,val.z()))
+    return m
+def m_checked(op):
+    def m(e,run,a,f):
+        x,y=deref(a[0]),deref(a[1])
+        r=e.binop(op+'WithOverflow',x,y); val,ov=r.f
+        if run.branch_bool(ov,'checked'): return none()
+        return some(val)
+    return m
+def m_wrapping(op):
+    def m(e,run,a,f): return e.binop(op,deref(a[0]),deref(a[1]))
+    return m
+def register_more(E):
+    M=E.model
+    M(r'<impl \[.*\]>::sort_by$',m_sort_by); M(r'<impl \[.*\]>::sort_unstable_by$',m_sort_by)
+    M(r'<impl \[.*\]>::sort_by_key$',m_sort_by_key); M(r'<impl \[.*\]>::sort_unstable_by_key$',m_sort_by_key)
+    M(r'<impl \[.*\]>::sort_unstable$',m_vec_sort)
+    M(r'^Vec::dedup$',m_dedup); M(r'^Vec::dedup_by_key$',m_dedup_by_key); M(r'^Vec::dedup_by$',m_dedup_by)
+    M(r'^(Vec|HashMap|BTreeMap|HashSet|BTreeSet)::retain$',m_retain)
+    M(r'^Vec::insert$',m_vec_insert); M(r'^Vec::remove$',m_vec_remove); M(r'^Vec::truncate$',m_vec_truncate); M(r'^(std::string::)?String::truncate$',m_vec_truncate)
+    M(r'<impl \[.*\]>::reverse$',m_vec_reverse); M(r'^Vec::swap_remove$',m_vec_swap_remove)
+    M(r'<impl \[.*\]>::split_at$',m_split_at); M(r'<impl str>::split_at$',m_split_at)
+    M(r' as Iterator>::rev$',m_iter_rev); M(r' as Iterator>::take$',m_iter_take); M(r' as Iterator>::skip$',m_iter_skip)
+    M(r' as Iterator>::take_while$',m_iter_take_while); M(r' as Iterator>::skip_while$',m_iter_skip_while)
+    M(r' as Iterator>::chain$',m_iter_chain); M(r' as Iterator>::zip$',m_iter_zip); M(r' as Iterator>::nth$',m_iter_nth)
+    M(r' as Iterator>::fold$',m_iter_fold); M(r' as Iterator>::min$',m_iter_min_max('min')); M(r' as Iterator>::max$',m_iter_min_max('max'))
+    M(r' as Iterator>::min_by_key$',m_iter_min_max_by_key('min')); M(r' as Iterator>::max_by_key$',m_iter_min_max_by_key('max'))
+    M(r' as Iterator>::find_map$',m_iter_find_map); M(r' as Iterator>::sum$',m_iter_sum)
+    M(r' as Iterator>::peekable$',m_iter_peekable); M(r'Peekable<.*>::peek$',m_iter_peek)
+    M(r' as DoubleEndedIterator>::next_back$',m_iter_next_back); M(r' as Iterator>::by_ref$',m_iter_by_ref)
+    M(r'(^|::)Option::filter$',m_opt_filter); M(r'(^|::)(Option::is_some_and|Result::is_ok_and)$',m_opt_is_some_and)
+    M(r'(^|::)Option::is_none_or$',lambda e,run,a,f: Bool(True) if a[0].vname=='None' else e.call_value(run,a[1],[a[0].f[0]]))
+    M(r'(^|::)(Option|Result)::map_or$',m_opt_map_or); M(r'(^|::)(Option|Result)::map_or_else$',m_opt_map_or_else)
+    M(r'(^|::)(Option|Result)::or$',m_opt_or); M(r'(^|::)(Option|Result)::and$',m_opt_and); M(r'(^|::)Option::xor$',m_opt_xor)
+    M(r'(^|::)Option::zip$',m_opt_zip); M(r'(^|::)Option::get_or_insert_with$',m_opt_get_or_insert_with); M(r'(^|::)Option::replace$',m_opt_replace)
+    M(r'(^|::)Option::copied$',m_opt_cloned); M(r'(^|::)Option::unwrap_or_default$',m_unwrap_or_default)
+    M(r'(^|::)Result::err$',m_res_err); M(r'(^|::)Result::(unwrap_err|expect_err)$',m_res_unwrap_err)
+    M(r'(^|::)Option::transpose$',m_opt_ok_or_transpose)
+    M(r'(^|::)Option::iter$',m_into_iter)
+    M(r'^std::mem::replace$',m_mem_replace); M(r'^std::mem::swap$',m_mem_swap); M(r'^std::mem::take$',m_mem_take)
+    M(r'^std::cmp::min$|as Ord>::min$',m_min_max('min')); M(r'^std::cmp::max$|as Ord>::max$',m_min_max('max'))
+    M(r'<impl str>::chars$',m_str_chars); M(r'<impl str>::bytes$',m_str_bytes)
+    M(r'<impl str>::trim$',m_str_trim('trim')); M(r'<impl str>::trim_start$',m_str_trim('trim_start')); M(r'<impl str>::trim_end$',m_str_trim('trim_end'))
+    M(r'<impl str>::to_lowercase$',m_str_case('lower')); M(r'<impl str>::to_uppercase$',m_str_case('upper'))
+    M(r'<impl str>::to_ascii_lowercase$',m_str_case('alower')); M(r'<impl str>::to_ascii_uppercase$',m_str_case('aupper'))
+    M(r'<impl str>::find$',m_str_find); M(r'<impl str>::rfind$',m_str_rfind)
+    M(r'<impl str>::strip_suffix$',m_strip_suffix); M(r'<impl \[.*\]>::strip_suffix$',m_strip_suffix); M(r'<impl str>::split_once$',m_split_once)
+    M(r'<impl \[.*\]>::ends_with$',m_ends_with)
+    M(r'<impl str>::is_char_boundary$',m_is_char_boundary)
+    M(r'<impl char>::is_ascii_digit$|<impl u8>::is_ascii_digit$',m_char_pred(lambda c: c in '0123456789'))
+    M(r'<impl char>::is_ascii_hexdigit$|<impl u8>::is_ascii_hexdigit$',m_char_pred(lambda c: c in '0123456789abcdefABCDEF'))
+    M(r'<impl char>::is_alphanumeric$',m_char_pred(lambda c: c.isalnum())); M(r'<impl char>::is_whitespace$',m_char_pred(lambda c: c.isspace()))
+    M(r'<impl char>::is_ascii$|<impl u8>::is_ascii$',m_char_pred(lambda c: ord(c)<128))
+    for w in ('u8','u16','u32','u64','usize'):
+        M(r'<impl %s>::saturating_sub$'%w,m_saturating('Sub')); M(r'<impl %s>::saturating_add$'%w,m_saturating('Add'))
+        M(r'<impl %s>::checked_sub$'%w,m_checked('Sub')); M(r'<impl %s>::checked_add$'%w,m_checked('Add')); M(r'<impl %s>::checked_mul$'%w,m_checked('Mul'))
+        M(r'<impl %s>::wrapping_sub$'%w,m_wrapping('Sub')); M(r'<impl %s>::wrapping_add$'%w,m_wrapping('Add'))
+_old_register_all4=register_all
+def register_all(E):
+    _old_register_all4(E); register_more(E)
